@@ -199,7 +199,8 @@ def solve_one(job):
             res = None
         elif job.get('z3_useq_text'):
             # sequences abstracted to an uninterpreted sort (nth/len): only `unsat` is meaningful
-            r2 = run_z3(job['z3_useq_text'], [], budget)
+            # (twice the budget: this is the attempt that turns a hard refutation into a verdict)
+            r2 = run_z3(job['z3_useq_text'], [], budget * 2)
             r2['backend'] = (r2.get('backend') or 'z3') + '+useq'
             attempts.append({k: r2.get(k) for k in ('backend', 'answer', 'time', 'detail')})
             if r2['answer'] == 'unsat':
@@ -253,7 +254,9 @@ def _axiom_of_instance(t, interp):
     import re
     key = re.sub(r'_\d+\b', '_', smt.to_smt(t, 'z3'))
     if key not in _INSTANCE_THEOREMS:
-        r = run_z3(smt.script([smt.Not(t)], 'z3', None, interp=interp), [], 20000)
+        # decided by the z3 binary in a subprocess: the parent process must stay free of solver state (it forks
+        # the worker pool)
+        r = run_z3_cli(smt.script([smt.Not(t)], 'z3', None, interp=interp), 20000)
         _INSTANCE_THEOREMS[key] = (r['answer'] == 'unsat')
     return _INSTANCE_THEOREMS[key]
 
